@@ -103,7 +103,9 @@ pub fn err_repr(e: &io::Error) -> String {
 }
 
 pub fn silence_panics() {
-    std::panic::set_hook(Box::new(|_| {}));
+    if std::env::var("VERIF_DEBUG").is_err() {
+        std::panic::set_hook(Box::new(|_| {}));
+    }
 }
 
 pub fn env_seed() -> u64 {
